@@ -27,6 +27,7 @@ type SrcSpec struct {
 	Size   string `json:"size"`   // short: "1" | "half" | "minus1" ; uniform: chunk size as number
 	Err    string `json:"err"`    // fault: eof | unexpected | custom | partial1 | partialhalf | partialminus1 | shortthen
 	Sticky bool   `json:"sticky"`
+	Offset int    `json:"offset,omitempty"` // faultat: byte offset in the stream at which the source fails
 }
 
 func (s SrcSpec) String() string {
@@ -44,6 +45,8 @@ func (s SrcSpec) String() string {
 		return fmt.Sprintf("fault(%s,%s)@read%d", s.Err, st, s.Index)
 	case "uniform":
 		return "uniform(" + s.Size + ")"
+	case "faultat":
+		return fmt.Sprintf("fault(%s)@byte%d", s.Err, s.Offset)
 	case "eofwith":
 		return "eof-with-last-bytes(" + s.Size + ")"
 	}
@@ -98,6 +101,27 @@ func MakeSource(spec SrcSpec, data []byte) *seam.Source {
 	case "uniform":
 		src.Policy = func(call, req, rem int) (seam.Answer, bool) {
 			return seam.Answer{N: sizeOf(spec.Size, req)}, true
+		}
+	case "faultat":
+		// the stream is delivered up to a byte offset whatever the sizes of the Reads, then the source fails for good
+		// (together with the last bytes for "partial", on the next call otherwise)
+		src.Sticky = true
+		src.Policy = func(call, req, rem int) (seam.Answer, bool) {
+			pos := len(data) - rem
+			e := ErrCustom
+			if spec.Err == "eof" {
+				e = io.EOF
+			}
+			if pos >= spec.Offset {
+				return seam.Answer{N: 0, Err: e}, true
+			}
+			if pos+req > spec.Offset {
+				if spec.Err == "partial" {
+					return seam.Answer{N: spec.Offset - pos, Err: e}, true
+				}
+				return seam.Answer{N: spec.Offset - pos}, true
+			}
+			return seam.Answer{}, false
 		}
 	case "eofwith":
 		// the stream ends exactly after the last sample and the final Read reports (n>0, io.EOF)
